@@ -83,3 +83,88 @@ func dumpModuleRows(m protoreflect.ProtoMessage) []string {
 	sort.Strings(out)
 	return out
 }
+
+// ---- source locations (C08) ----
+
+type srcLoc struct {
+	File                           string
+	SLine, SCol, ELine, ECol int64
+	HasEnd                         bool
+}
+
+// dumpLocs collects, for every message of the module that carries `source_contexts`, the list of
+// locations in order, keyed by the message's path in the generic dump.
+func dumpLocs(m protoreflect.ProtoMessage) map[string][]srcLoc {
+	out := map[string][]srcLoc{}
+	var walk func(m protoreflect.Message, path string)
+	walk = func(m protoreflect.Message, path string) {
+		fds := m.Descriptor().Fields()
+		for i := 0; i < fds.Len(); i++ {
+			fd := fds.Get(i)
+			if !m.Has(fd) {
+				continue
+			}
+			name := string(fd.Name())
+			v := m.Get(fd)
+			if name == "source_contexts" && fd.IsList() {
+				l := v.List()
+				for j := 0; j < l.Len(); j++ {
+					out[path] = append(out[path], readLoc(l.Get(j).Message()))
+				}
+				continue
+			}
+			if name == "source_context" {
+				continue
+			}
+			p := path + "." + name
+			if path == "" {
+				p = name
+			}
+			switch {
+			case fd.IsMap():
+				if fd.MapValue().Kind() != protoreflect.MessageKind {
+					continue
+				}
+				v.Map().Range(func(k protoreflect.MapKey, val protoreflect.Value) bool {
+					walk(val.Message(), fmt.Sprintf("%s[%q]", p, k.String()))
+					return true
+				})
+			case fd.IsList():
+				if fd.Kind() != protoreflect.MessageKind {
+					continue
+				}
+				l := v.List()
+				for j := 0; j < l.Len(); j++ {
+					walk(l.Get(j).Message(), fmt.Sprintf("%s[%d]", p, j))
+				}
+			case fd.Kind() == protoreflect.MessageKind:
+				walk(v.Message(), p)
+			}
+		}
+	}
+	walk(m.ProtoReflect(), "")
+	return out
+}
+
+func readLoc(m protoreflect.Message) srcLoc {
+	var l srcLoc
+	fds := m.Descriptor().Fields()
+	get := func(mm protoreflect.Message, n string) int64 {
+		fd := mm.Descriptor().Fields().ByName(protoreflect.Name(n))
+		if fd == nil {
+			return 0
+		}
+		return mm.Get(fd).Int()
+	}
+	if fd := fds.ByName("file"); fd != nil {
+		l.File = m.Get(fd).String()
+	}
+	if fd := fds.ByName("start"); fd != nil && m.Has(fd) {
+		l.SLine, l.SCol = get(m.Get(fd).Message(), "line"), get(m.Get(fd).Message(), "col")
+	}
+	if fd := fds.ByName("end"); fd != nil && m.Has(fd) {
+		l.HasEnd = true
+		l.ELine, l.ECol = get(m.Get(fd).Message(), "line"), get(m.Get(fd).Message(), "col")
+	}
+	return l
+}
